@@ -9,7 +9,7 @@
    L satisfying line_ok; `QL` below is a concrete instance (carrier Q, payloads = rational points), which shows
    that the premises are satisfiable and yields closed (FULL) corollaries for all values whose algebraic
    payloads are points - i.e. for every kind combination of value.c's dispatch. *)
-From Coq Require Import ZArith NArith QArith Qround Qpower Znumtheory Zpow_facts List Bool Lia Lra.
+From Coq Require Import ZArith NArith QArith Qround Qpower Znumtheory Zpow_facts Qfield List Bool Lia Lqa.
 From LP Require Import Scalar ScalarProofs UPoly RefAlg Value.
 Local Open Scope Z_scope.
 Ltac Zify.zify_post_hook ::= Z.div_mod_to_equations.
@@ -114,6 +114,120 @@ Lemma QofR_int z : (QofR (q_from_integer z) == inject_Z z)%Q.
 Proof. unfold QofR, q_from_integer; cbn [fst snd]. field. Qed.
 Lemma Qcompare_inject a b : (inject_Z a ?= inject_Z b)%Q = (a ?= b).
 Proof. unfold Qcompare, inject_Z; cbn. rewrite !Z.mul_1_r. reflexivity. Qed.
+
+Lemma inject_lt_inv a b : (inject_Z a < inject_Z b)%Q -> a < b.
+Proof. rewrite <- Zlt_Qlt. trivial. Qed.
+(* ------------------------------------------------------------------ the rational picker of get_value_between (pure Q) *)
+Local Open Scope Q_scope.
+Lemma q_le_spec a b : q_wf a -> q_wf b -> (q_le a b = true <-> QofR a <= QofR b).
+Proof.
+  intros Ha Hb. unfold q_le. rewrite (q_cmp_spec _ _ Ha Hb), Z.leb_le, Qle_alt.
+  destruct (QofR a ?= QofR b); cbn; split; intros H; try discriminate; try lia; try congruence.
+Qed.
+Lemma q_cmp_lt0 a b : q_wf a -> q_wf b -> ((q_cmp a b < 0)%Z <-> QofR a < QofR b).
+Proof. intros Ha Hb. rewrite (q_cmp_spec _ _ Ha Hb), cmp_to_Z_lt, Qlt_alt. reflexivity. Qed.
+Lemma q_cmp_gt0 a b : q_wf a -> q_wf b -> ((0 < q_cmp a b)%Z <-> QofR b < QofR a).
+Proof. intros Ha Hb. rewrite (q_cmp_spec _ _ Ha Hb), cmp_to_Z_gt, Qgt_alt. reflexivity. Qed.
+Lemma q_cmp_eq0 a b : q_wf a -> q_wf b -> (q_cmp a b = 0%Z <-> QofR a == QofR b).
+Proof. intros Ha Hb. rewrite (q_cmp_spec _ _ Ha Hb), cmp_to_Z_eq0, Qeq_alt. reflexivity. Qed.
+
+Lemma q_mid_spec a b : q_wf a -> q_wf b ->
+  q_wf (q_div_2exp (q_add a b) 1) /\ QofR (q_div_2exp (q_add a b) 1) == (QofR a + QofR b) / 2.
+Proof.
+  intros Ha Hb. destruct (q_add_spec a b Ha Hb) as [Ws Vs].
+  destruct (q_div_2exp_spec (q_add a b) 1 Ws) as [Wm Vm]. split; [exact Wm|]. rewrite Vm, Vs. reflexivity.
+Qed.
+
+Lemma v_pick_loop_sound fuel : forall a b lb ub m, q_wf a -> q_wf b -> q_wf lb -> q_wf ub ->
+  v_pick_loop fuel a b lb ub = Some m -> q_wf m /\ QofR a < QofR m /\ QofR m < QofR b.
+Proof.
+  induction fuel as [|f IH]; intros a b lb ub m Ha Hb Hl Hu H; cbn [v_pick_loop] in H; [discriminate|].
+  destruct (q_mid_spec lb ub Hl Hu) as [Wm _].
+  set (mid := q_div_2exp (q_add lb ub) 1) in *.
+  destruct (0 <=? q_cmp a mid)%Z eqn:E1; [eapply (IH a b mid ub); eassumption|].
+  destruct (0 <=? q_cmp mid b)%Z eqn:E2; [eapply (IH a b lb mid); eassumption|].
+  injection H as <-. apply Z.leb_gt in E1, E2.
+  split; [exact Wm|]. split; [apply (q_cmp_lt0 _ _ Ha Wm); exact E1|apply (q_cmp_lt0 _ _ Wm Hb); exact E2].
+Qed.
+
+Definition bnd_lo (s : bool) (a r : Q) : Prop := if s then a < r else a <= r.
+Definition bnd_hi (s : bool) (r b : Q) : Prop := if s then r < b else r <= b.
+
+Lemma v_pick_sound fuel a sa b sb r : q_wf a -> q_wf b -> QofR a < QofR b ->
+  v_pick fuel a sa b sb = Some r -> q_wf r /\ bnd_lo sa (QofR a) (QofR r) /\ bnd_hi sb (QofR r) (QofR b).
+Proof.
+  intros Ha Hb Hab. unfold v_pick.
+  destruct (q_mid_spec a b Ha Hb) as [Wm Hmid].
+  set (mq := q_div_2exp (q_add a b) 1) in *.
+  destruct (q_floor_spec mq Wm) as [Hf1 Hf2].
+  set (fl := q_floor mq) in *.
+  unfold int_inc. cbn [ring_norm].
+  pose proof (q_wf_int fl) as Wfl. pose proof (q_wf_int (fl + 1)) as Wcl.
+  pose proof (QofR_int fl) as Vfl. pose proof (QofR_int (fl + 1)) as Vcl.
+  assert (M0 : 2 * QofR mq == QofR a + QofR b) by (rewrite Hmid; field).
+  assert (M1 : QofR a < QofR mq) by lra.
+  assert (M2 : QofR mq < QofR b) by lra.
+  unfold q_cmp_integer.
+  destruct ((q_cmp a (q_from_integer fl) <? 0)%Z || (q_cmp a (q_from_integer fl) =? 0)%Z && negb sa) eqn:E1.
+  - intros [= <-]. split; [exact Wfl|]. unfold bnd_lo, bnd_hi.
+    apply orb_true_iff in E1. destruct E1 as [E1|E1].
+    + apply Z.ltb_lt in E1. apply (q_cmp_lt0 _ _ Ha Wfl) in E1. rewrite Vfl in E1.
+      split; [destruct sa; cbn; lra|destruct sb; cbn; lra].
+    + apply andb_true_iff in E1. destruct E1 as [E1 E1']. apply Z.eqb_eq in E1. apply (q_cmp_eq0 _ _ Ha Wfl) in E1.
+      rewrite Vfl in E1. destruct sa; try discriminate. split; [cbn; lra|destruct sb; cbn; lra].
+  - destruct ((0 <? q_cmp b (q_from_integer (fl + 1)))%Z || (q_cmp b (q_from_integer (fl + 1)) =? 0)%Z && negb sb) eqn:E2.
+    + intros [= <-]. split; [exact Wcl|]. unfold bnd_lo, bnd_hi.
+      apply orb_true_iff in E2. destruct E2 as [E2|E2].
+      * apply Z.ltb_lt in E2. apply (q_cmp_gt0 _ _ Hb Wcl) in E2. rewrite Vcl in E2.
+        split; [destruct sa; cbn; lra|destruct sb; cbn; lra].
+      * apply andb_true_iff in E2. destruct E2 as [E2 E2']. apply Z.eqb_eq in E2. apply (q_cmp_eq0 _ _ Hb Wcl) in E2.
+        rewrite Vcl in E2. destruct sb; try discriminate. split; [destruct sa; cbn; lra|cbn; lra].
+    + intros H. destruct (v_pick_loop_sound _ _ _ _ _ _ Ha Hb Wfl Wcl H) as (W & L1 & L2).
+      split; [exact W|]. split; [destruct sa; cbn; lra|destruct sb; cbn; lra].
+Qed.
+
+(* "prefer integers": whenever some integer satisfies the (hull) bounds, the picked value is an integer *)
+Lemma v_pick_prefers_int fuel a sa b sb r k : q_wf a -> q_wf b -> QofR a < QofR b ->
+  v_pick fuel a sa b sb = Some r ->
+  bnd_lo sa (QofR a) (inject_Z k) -> bnd_hi sb (inject_Z k) (QofR b) -> q_is_integer r = true.
+Proof.
+  intros Ha Hb Hab. unfold v_pick.
+  destruct (q_mid_spec a b Ha Hb) as [Wm Hmid].
+  set (mq := q_div_2exp (q_add a b) 1) in *.
+  destruct (q_floor_spec mq Wm) as [Hf1 Hf2].
+  set (fl := q_floor mq) in *.
+  unfold int_inc. cbn [ring_norm].
+  pose proof (q_wf_int fl) as Wfl. pose proof (q_wf_int (fl + 1)) as Wcl.
+  pose proof (QofR_int fl) as Vfl. pose proof (QofR_int (fl + 1)) as Vcl.
+  unfold q_cmp_integer.
+  destruct ((q_cmp a (q_from_integer fl) <? 0)%Z || (q_cmp a (q_from_integer fl) =? 0)%Z && negb sa) eqn:E1;
+    [intros [= <-] _ _; reflexivity|].
+  destruct ((0 <? q_cmp b (q_from_integer (fl + 1)))%Z || (q_cmp b (q_from_integer (fl + 1)) =? 0)%Z && negb sb) eqn:E2;
+    [intros [= <-] _ _; reflexivity|].
+  intros _ K1 K2. exfalso.
+  apply orb_false_iff in E1. destruct E1 as [E1 E1']. apply orb_false_iff in E2. destruct E2 as [E2 E2'].
+  apply Z.ltb_ge in E1, E2.
+  (* a >= fl (with equality only if strict), b <= fl+1 (with equality only if strict) *)
+  assert (A1 : inject_Z fl <= QofR a).
+  { rewrite <- Vfl. apply Qnot_lt_le. intros C. apply (q_cmp_lt0 _ _ Ha Wfl) in C. lia. }
+  assert (B1 : QofR b <= inject_Z (fl + 1)).
+  { rewrite <- Vcl. apply Qnot_lt_le. intros C. apply (q_cmp_gt0 _ _ Hb Wcl) in C. lia. }
+  assert (A2 : sa = false -> inject_Z fl < QofR a).
+  { intros ->. cbn in E1'. rewrite andb_true_r in E1'. apply Z.eqb_neq in E1'.
+    apply Qle_lt_or_eq in A1. destruct A1 as [A1|A1]; [exact A1|].
+    exfalso. apply E1'. apply (q_cmp_eq0 _ _ Ha Wfl). rewrite Vfl. symmetry. exact A1. }
+  assert (B2 : sb = false -> QofR b < inject_Z (fl + 1)).
+  { intros ->. cbn in E2'. rewrite andb_true_r in E2'. apply Z.eqb_neq in E2'.
+    apply Qle_lt_or_eq in B1. destruct B1 as [B1|B1]; [exact B1|].
+    exfalso. apply E2'. apply (q_cmp_eq0 _ _ Hb Wcl). rewrite Vcl. exact B1. }
+  (* so fl < k < fl + 1 *)
+  assert (K3 : (fl < k)%Z).
+  { apply inject_lt_inv. destruct sa; cbn in K1; [lra|]. specialize (A2 eq_refl). lra. }
+  assert (K4 : (k < fl + 1)%Z).
+  { apply inject_lt_inv. destruct sb; cbn in K2; [lra|]. specialize (B2 eq_refl). lra. }
+  lia.
+Qed.
+Local Open Scope Z_scope.
 
 Section Line.
 Variable L : line.
@@ -692,8 +806,6 @@ Proof. unfold Llt, Lle. intros H1 H2. apply H2. apply Lcmp_gt_lt. exact H1. Qed.
 Definition is_floor (z : Z) (x : R) : Prop := Lle L (LQ L (inject_Z z)) x /\ Llt L x (LQ L (inject_Z (z + 1))).
 Definition is_ceiling (z : Z) (x : R) : Prop := Llt L (LQ L (inject_Z (z - 1))) x /\ Lle L x (LQ L (inject_Z z)).
 
-Lemma inject_lt_inv a b : (inject_Z a < inject_Z b)%Q -> a < b.
-Proof. rewrite <- Zlt_Qlt. trivial. Qed.
 Lemma is_floor_unique z z' x x' : is_floor z x -> is_floor z' x' -> x ~ x' -> z = z'.
 Proof.
   intros [A1 A2] [B1 B2] E.
@@ -888,5 +1000,437 @@ Proof.
   intros Hu Hu' Hv Hv' E1 E2 H1 H2.
   rewrite (v_cmp_spec _ _ _ _ Hu Hv H1), (v_cmp_spec _ _ _ _ Hu' Hv' H2).
   rewrite (ecmp_eq_l _ _ _ E1), (ecmp_eq_r _ _ _ E2). reflexivity.
+Qed.
+
+(* ------------------------------------------------------------------ 5. picking a value between two bounds *)
+Definition within (lo : ext R) (slo : bool) (x : ext R) (hi : ext R) (shi : bool) : Prop :=
+  (if slo then ecmp L lo x = Lt else ecmp L lo x <> Gt) /\
+  (if shi then ecmp L x hi = Lt else ecmp L x hi <> Gt).
+Lemma within_eeq lo lo' slo x hi hi' shi : eeq L lo lo' -> eeq L hi hi' ->
+  within lo slo x hi shi -> within lo' slo x hi' shi.
+Proof.
+  unfold within. intros E1 E2 [H1 H2].
+  rewrite <- (ecmp_eq_l lo lo' x E1), <- (ecmp_eq_r x hi hi' E2). split; assumption.
+Qed.
+
+(* the exact rational value of a representation that has one syntactically *)
+Definition ratval (v : value) : option rat :=
+  match v with
+  | VInt z => Some (q_from_integer z)
+  | VDy d => Some (q_from_dyadic d)
+  | VRat q => Some q
+  | VAlg (RQ q) => Some q
+  | _ => None
+  end.
+Lemma ratval_spec v q : vok L v -> ratval v = Some q -> q_wf q /\ den L v = EFin (match v with VAlg x => Lden L x | _ => LQ L (match v with VInt z => inject_Z z | VDy d => QofD d | _ => QofR q end) end) /\ exists x, den L v = EFin x /\ x ~ LQ L (QofR q).
+Proof.
+  intros Hv H. destruct v as [z|d|r|x| |]; cbn in H; try discriminate.
+  - injection H as <-. split; [apply q_wf_int|]. split; [reflexivity|]. eexists. split; [reflexivity|].
+    apply LQ_eq. symmetry. apply QofR_int.
+  - injection H as <-. destruct (q_from_dyadic_spec d) as [W V]. split; [exact W|]. split; [reflexivity|].
+    eexists. split; [reflexivity|]. apply LQ_eq. symmetry. exact V.
+  - injection H as <-. split; [exact Hv|]. split; [reflexivity|]. eexists. split; [reflexivity|apply Leq_refl].
+  - destruct x as [r|p lo hi]; try discriminate. injection H as <-. cbn [vok] in Hv.
+    pose proof (P_RQ_wf L OK _ Hv) as W. split; [exact W|]. split; [reflexivity|]. eexists. split; [reflexivity|].
+    apply (D_RQ L OK _ W).
+Qed.
+
+(* what the comparison at the top of lp_value_get_value_between leaves behind: isolating intervals that
+   exclude the other operand *)
+Definition sepd (u v : value) : Prop :=
+  match u, v with
+  | VAlg (RA _ lx hx), VAlg (RA _ ly hy) => q_le hx ly || q_le hy lx = true
+  | VAlg (RA _ lx hx), _ => match ratval v with Some q => q_le q lx || q_le hx q = true | None => True end
+  | _, VAlg (RA _ ly hy) => match ratval u with Some q => q_le q ly || q_le hy q = true | None => True end
+  | _, _ => True
+  end.
+
+Lemma refine_away_spec fuel : forall x q x', LP L x -> rn_refine_away fuel x q = Some x' ->
+  LP L x' /\ Lden L x' ~ Lden L x /\
+  match x' with RA _ lo hi => q_le q lo || q_le hi q = true | RQ _ => True end.
+Proof.
+  induction fuel as [|f IH]; intros x q x' Hx H; cbn [rn_refine_away] in H; [discriminate|].
+  destruct x as [r|p lo hi].
+  - injection H as <-. split; [exact Hx|]. split; [apply Leq_refl|exact I].
+  - destruct (q_le q lo || q_le hi q) eqn:E.
+    + injection H as <-. split; [exact Hx|]. split; [apply Leq_refl|exact E].
+    + destruct (A_refine L OK _ Hx) as [P1 D1]. destruct (IH _ _ _ P1 H) as (P2 & D2 & S2).
+      split; [exact P2|]. split; [eapply Leq_trans; eassumption|exact S2].
+Qed.
+
+Lemma va_sep_spec fuel : forall x y x' y', LP L x -> LP L y -> va_sep fuel x y = Some (x', y') ->
+  LP L x' /\ LP L y' /\ Lden L x' ~ Lden L x /\ Lden L y' ~ Lden L y /\ sepd (VAlg x') (VAlg y').
+Proof.
+  induction fuel as [|f IH]; intros x y x' y' Hx Hy H; cbn [va_sep] in H; [discriminate|].
+  destruct x as [a|p lo hi].
+  - destruct (rn_refine_away (S f) y a) as [y1|] eqn:E; cbn in H; try discriminate. injection H as <- <-.
+    destruct (refine_away_spec _ _ _ _ Hy E) as (P2 & D2 & S2).
+    repeat split; try assumption; try apply Leq_refl; try (destruct y1 as [b|p' lo' hi']; cbn; [exact I|exact S2]).
+  - destruct y as [b|p' lo' hi'].
+    + destruct (rn_refine_away (S f) (RA p lo hi) b) as [x1|] eqn:E; cbn in H; try discriminate. injection H as <- <-.
+      destruct (refine_away_spec _ _ _ _ Hx E) as (P2 & D2 & S2).
+      repeat split; try assumption; try apply Leq_refl; try (destruct x1 as [a|p1 lo1 hi1]; cbn; [exact I|exact S2]).
+    + destruct (q_le hi lo' || q_le hi' lo) eqn:E.
+      * injection H as <- <-. repeat split; try assumption; try apply Leq_refl.
+      * destruct (A_refine L OK _ Hx) as [P1 D1]. destruct (A_refine L OK _ Hy) as [P2 D2].
+        destruct (IH _ _ _ _ P1 P2 H) as (P3 & P4 & D3 & D4 & S).
+        repeat split; try assumption; eapply Leq_trans; eassumption.
+Qed.
+
+Lemma v_cmp_sep_spec fuel a b c a1 b1 : vok L a -> vok L b -> v_cmp_sep fuel a b = ROk (c, a1, b1) ->
+  Z.sgn c = cmp_to_Z (ecmp L (den L a) (den L b)) /\ vok L a1 /\ vok L b1 /\
+  eeq L (den L a1) (den L a) /\ eeq L (den L b1) (den L b) /\ (c <> 0 -> sepd a1 b1).
+Proof.
+  intros Ha Hb H. unfold v_cmp_sep in H. destruct (v_cmp fuel a b) as [c0| |] eqn:EC; cbn [vr_bind] in H; try discriminate.
+  pose proof (v_cmp_spec _ _ _ _ Ha Hb EC) as SC.
+  destruct (c0 =? 0) eqn:E0.
+  { injection H as <- <- <-. apply Z.eqb_eq in E0. repeat split; try assumption; try apply eeq_refl. intros C; contradiction. }
+  assert (TRIV : forall a' b', ratval a' <> None \/ v_is_infinity a' = true -> ratval b' <> None \/ v_is_infinity b' = true -> sepd a' b').
+  { intros a' b' [A|A] [B|B]; destruct a' as [?|?|?|[?|? ? ?]| |], b' as [?|?|?|[?|? ? ?]| |]; cbn in *; try exact I; try congruence; try discriminate. }
+  destruct a as [za|da|qa|xa| |], b as [zb|db|qb|xb| |]; cbn [v_fin_rat] in H; cbn [vok] in Ha, Hb;
+    try (injection H as <- <- <-; split; [exact SC|]; split; [exact Ha|]; split; [exact Hb|];
+         split; [apply eeq_refl|]; split; [apply eeq_refl|]; intros _; cbn; exact I).
+  all: try (injection H as <- <- <-; split; [exact SC|]; split; [exact Ha|]; split; [exact Hb|];
+         split; [apply eeq_refl|]; split; [apply eeq_refl|]; intros _;
+         match goal with
+         | |- sepd (VAlg ?x) _ => destruct x as [?|? ? ?]; cbn; exact I
+         | |- sepd _ (VAlg ?x) => destruct x as [?|? ? ?]; cbn; exact I
+         end).
+  all: try (match type of H with context [rn_refine_away ?f ?x ?q] =>
+         destruct (rn_refine_away f x q) as [x1|] eqn:ER; cbn in H; try discriminate; injection H as <- <- <-;
+         first [ destruct (refine_away_spec _ _ _ _ Ha ER) as (P2 & D2 & S2);
+                 split; [exact SC|]; split; [exact P2|]; split; [exact Hb|]; split; [exact D2|]; split; [apply eeq_refl|]
+               | destruct (refine_away_spec _ _ _ _ Hb ER) as (P2 & D2 & S2);
+                 split; [exact SC|]; split; [exact Ha|]; split; [exact P2|]; split; [apply eeq_refl|]; split; [exact D2|] ];
+         intros _; destruct x1 as [r1|p1 l1 h1]; cbn; try exact I; exact S2 end).
+  (* alg, alg *)
+    destruct (va_sep fuel xa xb) as [[x1 y1]|] eqn:ES; cbn in H; try discriminate. injection H as <- <- <-.
+    destruct (va_sep_spec _ _ _ _ _ Ha Hb ES) as (P1 & P2 & D1 & D2 & S).
+    split; [exact SC|]. split; [exact P1|]. split; [exact P2|]. split; [exact D1|]. split; [exact D2|]. intros _. exact S.
+Qed.
+
+(* hulls *)
+Lemma v_hull_upper_spec v s q s' : vok L v -> v_hull_upper v s = ROk (q, s') ->
+  q_wf q /\ exists x, den L v = EFin x /\
+    ((x ~ LQ L (QofR q) /\ s' = s) \/ (exists p l, v = VAlg (RA p l q) /\ s' = false)).
+Proof.
+  intros Hv H. destruct v as [z|d|r|x| |]; cbn [v_hull_upper] in H; try discriminate.
+  - injection H as <- <-. split; [apply q_wf_int|]. eexists. split; [reflexivity|]. left. split; [|reflexivity].
+    apply LQ_eq. symmetry. apply QofR_int.
+  - injection H as <- <-. destruct (q_from_dyadic_spec d) as [W V]. split; [exact W|]. eexists. split; [reflexivity|].
+    left. split; [|reflexivity]. apply LQ_eq. symmetry. exact V.
+  - injection H as <- <-. split; [exact Hv|]. eexists. split; [reflexivity|]. left. split; [apply Leq_refl|reflexivity].
+  - destruct (va_is_rational x) eqn:IR.
+    + destruct (va_get_rational x) as [q0| |] eqn:E; cbn in H; try discriminate. injection H as <- <-.
+      destruct (v_get_rational_spec (VAlg x) q0 Hv E) as [W D]. split; [exact W|]. eexists. split; [reflexivity|].
+      left. split; [exact D|reflexivity].
+    + injection H as <- <-. destruct x as [r|p l h]; [discriminate IR|]. cbn [rn_hi]. cbn [vok] in Hv.
+      destruct (P_RA L OK _ _ _ Hv) as (Wl & Wh & _). split; [exact Wh|]. eexists. split; [reflexivity|].
+      right. exists p, l. split; reflexivity.
+Qed.
+Lemma v_hull_lower_spec v s q s' : vok L v -> v_hull_lower v s = ROk (q, s') ->
+  q_wf q /\ exists x, den L v = EFin x /\
+    ((x ~ LQ L (QofR q) /\ s' = s) \/ (exists p h, v = VAlg (RA p q h) /\ s' = false)).
+Proof.
+  intros Hv H. destruct v as [z|d|r|x| |]; cbn [v_hull_lower] in H; try discriminate.
+  - injection H as <- <-. split; [apply q_wf_int|]. eexists. split; [reflexivity|]. left. split; [|reflexivity].
+    apply LQ_eq. symmetry. apply QofR_int.
+  - injection H as <- <-. destruct (q_from_dyadic_spec d) as [W V]. split; [exact W|]. eexists. split; [reflexivity|].
+    left. split; [|reflexivity]. apply LQ_eq. symmetry. exact V.
+  - injection H as <- <-. split; [exact Hv|]. eexists. split; [reflexivity|]. left. split; [apply Leq_refl|reflexivity].
+  - destruct (va_is_rational x) eqn:IR.
+    + destruct (va_get_rational x) as [q0| |] eqn:E; cbn in H; try discriminate. injection H as <- <-.
+      destruct (v_get_rational_spec (VAlg x) q0 Hv E) as [W D]. split; [exact W|]. eexists. split; [reflexivity|].
+      left. split; [exact D|reflexivity].
+    + injection H as <- <-. destruct x as [r|p l h]; [discriminate IR|]. cbn [rn_lo]. cbn [vok] in Hv.
+      destruct (P_RA L OK _ _ _ Hv) as (Wl & Wh & _). split; [exact Wl|]. eexists. split; [reflexivity|].
+      right. exists p, h. split; reflexivity.
+Qed.
+
+Lemma Llt_asym a b : Llt L a b -> Llt L b a -> False.
+Proof. intros H1 H2. apply (Llt_irrefl a). eapply Llt_trans; eassumption. Qed.
+
+(* the separated bound below an isolating interval *)
+Lemma sep_below lo p ly hy xl : vok L lo -> vok L (VAlg (RA p ly hy)) -> den L lo = EFin xl ->
+  Llt L xl (Lden L (RA p ly hy)) -> sepd lo (VAlg (RA p ly hy)) -> Lle L xl (LQ L (QofR ly)).
+Proof.
+  intros Hlo Hhi El Lt S. cbn [vok] in Hhi. destruct (P_RA L OK _ _ _ Hhi) as (Wl & Wh & B1 & B2).
+  assert (CONTRA : forall q, q_wf q -> Lle L (LQ L (QofR q)) xl -> q_le hy q = true -> False).
+  { intros q Wq Hq C. apply (q_le_spec _ _ Wh Wq) in C. apply LQ_le in C.
+    apply (Llt_irrefl xl). eapply Llt_le_trans; [exact Lt|]. eapply Lle_trans; [apply Llt_le; exact B2|].
+    eapply Lle_trans; [exact C|exact Hq]. }
+  destruct lo as [z|d|r|x| |]; try discriminate El.
+  1-3: (cbn [sepd] in S; match type of S with match ?rv with _ => _ end => destruct rv as [q|] eqn:ER end;
+        [|discriminate ER];
+        destruct (ratval_spec _ _ Hlo ER) as (Wq & _ & x0 & Ex & Dx); rewrite El in Ex; injection Ex as <-;
+        apply orb_true_iff in S; destruct S as [S|S];
+        [apply (q_le_spec _ _ Wq Wl) in S; eapply Lle_eq_l; [exact Dx|apply LQ_le; exact S]
+        |exfalso; apply (CONTRA q Wq); [eapply Lle_eq_r; [apply Leq_le, Leq_refl|apply Leq_sym; exact Dx]|exact S]]).
+  destruct x as [r|p' lx hx].
+  - cbn [sepd ratval] in S. cbn [vok] in Hlo. pose proof (P_RQ_wf L OK _ Hlo) as Wq. pose proof (D_RQ L OK _ Wq) as Dx.
+    cbn [den] in El. injection El as <-.
+    apply orb_true_iff in S. destruct S as [S|S].
+    + apply (q_le_spec _ _ Wq Wl) in S. eapply Lle_eq_l; [exact Dx|apply LQ_le; exact S].
+    + exfalso. apply (CONTRA r Wq); [apply Leq_le, Leq_sym; exact Dx|exact S].
+  - cbn [sepd] in S. cbn [vok] in Hlo. destruct (P_RA L OK _ _ _ Hlo) as (Wlx & Whx & C1 & C2).
+    cbn [den] in El. injection El as <-.
+    apply orb_true_iff in S. destruct S as [S|S].
+    + apply (q_le_spec _ _ Whx Wl) in S. eapply Lle_trans; [apply Llt_le; exact C2|apply LQ_le; exact S].
+    + exfalso. apply (CONTRA lx Wlx); [apply Llt_le; exact C1|exact S].
+Qed.
+Lemma sep_above hi p lx hx xh : vok L hi -> vok L (VAlg (RA p lx hx)) -> den L hi = EFin xh ->
+  Llt L (Lden L (RA p lx hx)) xh -> sepd (VAlg (RA p lx hx)) hi -> Lle L (LQ L (QofR hx)) xh.
+Proof.
+  intros Hhi Hlo Eh Lt S. cbn [vok] in Hlo. destruct (P_RA L OK _ _ _ Hlo) as (Wl & Wh & B1 & B2).
+  assert (CONTRA : forall q, q_wf q -> Lle L xh (LQ L (QofR q)) -> q_le q lx = true -> False).
+  { intros q Wq Hq C. apply (q_le_spec _ _ Wq Wl) in C. apply LQ_le in C.
+    apply (Llt_irrefl xh). eapply Lle_lt_trans; [exact Hq|]. eapply Lle_lt_trans; [exact C|].
+    eapply Llt_trans; [exact B1|exact Lt]. }
+  destruct hi as [z|d|r|x| |]; try discriminate Eh.
+  1-3: (cbn [sepd] in S; match type of S with match ?rv with _ => _ end => destruct rv as [q|] eqn:ER end;
+        [|discriminate ER];
+        destruct (ratval_spec _ _ Hhi ER) as (Wq & _ & x0 & Ex & Dx); rewrite Eh in Ex; injection Ex as <-;
+        apply orb_true_iff in S; destruct S as [S|S];
+        [exfalso; apply (CONTRA q Wq); [apply Leq_le; exact Dx|exact S]
+        |apply (q_le_spec _ _ Wh Wq) in S; eapply Lle_eq_r; [apply LQ_le; exact S|apply Leq_sym; exact Dx]]).
+  destruct x as [r|p' ly hy].
+  - cbn [sepd ratval] in S. cbn [vok] in Hhi. pose proof (P_RQ_wf L OK _ Hhi) as Wq. pose proof (D_RQ L OK _ Wq) as Dx.
+    cbn [den] in Eh. injection Eh as <-.
+    apply orb_true_iff in S. destruct S as [S|S].
+    + exfalso. apply (CONTRA r Wq); [apply Leq_le; exact Dx|exact S].
+    + apply (q_le_spec _ _ Wh Wq) in S. eapply Lle_eq_r; [apply LQ_le; exact S|apply Leq_sym; exact Dx].
+  - cbn [sepd] in S. cbn [vok] in Hhi. destruct (P_RA L OK _ _ _ Hhi) as (Wly & Why & C1 & C2).
+    cbn [den] in Eh. injection Eh as <-.
+    apply orb_true_iff in S. destruct S as [S|S].
+    + apply (q_le_spec _ _ Wh Wly) in S. eapply Lle_trans; [apply LQ_le; exact S|apply Llt_le; exact C1].
+    + exfalso. apply (CONTRA hy Why); [apply Llt_le; exact C2|exact S].
+Qed.
+
+(* the two hull ends are ordered once the bounds are separated *)
+Lemma hull_order lo slo hi shi qa sa' qb sb' xl xh :
+  vok L lo -> vok L hi -> den L lo = EFin xl -> den L hi = EFin xh -> Llt L xl xh -> sepd lo hi ->
+  v_hull_upper lo slo = ROk (qa, sa') -> v_hull_lower hi shi = ROk (qb, sb') ->
+  (QofR qa <= QofR qb)%Q.
+Proof.
+  intros Hlo Hhi El Eh Lt S HU HL.
+  destruct (v_hull_upper_spec _ _ _ _ Hlo HU) as (Wa & x1 & E1 & CA).
+  destruct (v_hull_lower_spec _ _ _ _ Hhi HL) as (Wb & x2 & E2 & CB).
+  rewrite El in E1. injection E1 as <-. rewrite Eh in E2. injection E2 as <-.
+  apply Qle_alt. rewrite <- (Q_cmp L OK). change (Lle L (LQ L (QofR qa)) (LQ L (QofR qb))).
+  destruct CA as [[DA _]|(pa & la & -> & _)]; destruct CB as [[DB _]|(pb & hb & -> & _)].
+  - apply Llt_le. eapply Llt_eq_l; [apply Leq_sym; exact DA|]. eapply Llt_eq_r; [exact Lt|exact DB].
+  - eapply Lle_eq_l; [apply Leq_sym; exact DA|]. cbn [den] in Eh. injection Eh as <-.
+    exact (sep_below lo pb qb hb xl Hlo Hhi El Lt S).
+  - eapply Lle_eq_r; [|exact DB]. cbn [den] in El. injection El as <-.
+    exact (sep_above hi pa la qa xh Hhi Hlo Eh Lt S).
+  - cbn [den] in El, Eh. injection El as <-. injection Eh as <-. cbn [vok] in Hlo, Hhi.
+    destruct (P_RA L OK _ _ _ Hlo) as (Wl1 & Wh1 & A1 & A2). destruct (P_RA L OK _ _ _ Hhi) as (Wl2 & Wh2 & B1 & B2).
+    cbn [sepd] in S. apply orb_true_iff in S. destruct S as [S|S].
+    + apply LQ_le. apply (q_le_spec _ _ Wa Wb). exact S.
+    + exfalso. apply (q_le_spec _ _ Wh2 Wl1) in S. apply LQ_le in S.
+      apply (Llt_irrefl (Lden L (RA pa la qa))). eapply Llt_trans; [exact Lt|].
+      eapply Llt_le_trans; [exact B2|]. eapply Lle_trans; [exact S|apply Llt_le; exact A1].
+Qed.
+
+(* from a hull end to the bound itself *)
+Lemma lower_ok lo slo qa sa' xl r : vok L lo -> den L lo = EFin xl -> v_hull_upper lo slo = ROk (qa, sa') ->
+  bnd_lo sa' (QofR qa) r ->
+  if slo then Llt L xl (LQ L r) else Lle L xl (LQ L r).
+Proof.
+  intros Hlo El HU B. destruct (v_hull_upper_spec _ _ _ _ Hlo HU) as (Wa & x1 & E1 & CA).
+  rewrite El in E1. injection E1 as <-.
+  destruct CA as [[DA ->]|(pa & la & -> & ->)].
+  - destruct slo; cbn [bnd_lo] in B.
+    + eapply Llt_eq_l; [exact DA|apply LQ_lt; exact B].
+    + eapply Lle_eq_l; [exact DA|apply LQ_le; exact B].
+  - cbn [bnd_lo] in B. cbn [den] in El. injection El as <-. cbn [vok] in Hlo.
+    destruct (P_RA L OK _ _ _ Hlo) as (_ & _ & _ & A2).
+    assert (S : Llt L (Lden L (RA pa la qa)) (LQ L r)) by (eapply Llt_le_trans; [exact A2|apply LQ_le; exact B]).
+    destruct slo; [exact S|apply Llt_le; exact S].
+Qed.
+Lemma upper_ok hi shi qb sb' xh r : vok L hi -> den L hi = EFin xh -> v_hull_lower hi shi = ROk (qb, sb') ->
+  bnd_hi sb' r (QofR qb) ->
+  if shi then Llt L (LQ L r) xh else Lle L (LQ L r) xh.
+Proof.
+  intros Hhi Eh HL B. destruct (v_hull_lower_spec _ _ _ _ Hhi HL) as (Wb & x1 & E1 & CB).
+  rewrite Eh in E1. injection E1 as <-.
+  destruct CB as [[DB ->]|(pb & hb & -> & ->)].
+  - destruct shi; cbn [bnd_hi] in B.
+    + eapply Llt_eq_r; [apply LQ_lt; exact B|apply Leq_sym; exact DB].
+    + eapply Lle_eq_r; [apply LQ_le; exact B|apply Leq_sym; exact DB].
+  - cbn [bnd_hi] in B. cbn [den] in Eh. injection Eh as <-. cbn [vok] in Hhi.
+    destruct (P_RA L OK _ _ _ Hhi) as (_ & _ & B1 & _).
+    assert (S : Llt L (LQ L r) (Lden L (RA pb qb hb))) by (eapply Lle_lt_trans; [apply LQ_le; exact B|exact B1]).
+    destruct shi; [exact S|apply Llt_le; exact S].
+Qed.
+
+Lemma v_refine_bound_spec v : vok L v -> vok L (v_refine_bound v) /\ eeq L (den L (v_refine_bound v)) (den L v).
+Proof.
+  intros Hv. destruct v as [z|d|q|x| |]; cbn [v_refine_bound]; try (split; [exact Hv|apply eeq_refl]).
+  destruct (v_is_rational (VAlg x)); [split; [exact Hv|apply eeq_refl]|].
+  cbn [vok den] in *. apply (A_refine L OK _ Hv).
+Qed.
+
+Definition between_core (rec : value -> bool -> value -> bool -> vres value) (fuel : nat)
+  (lo : value) (slo : bool) (hi : value) (shi : bool) : vres value :=
+  match lo, hi with
+  | VMinf, VPinf => ROk (VInt 0)
+  | VMinf, _ => vr_bind (v_hull_lower hi shi) (fun h => ROk (VInt (int_dec None (q_floor (fst h)))))
+  | _, VPinf => vr_bind (v_hull_upper lo slo) (fun h => ROk (VInt (int_inc None (q_ceiling (fst h)))))
+  | _, _ =>
+    vr_bind (v_hull_upper lo slo) (fun ha =>
+    vr_bind (v_hull_lower hi shi) (fun hb =>
+      if q_cmp (fst ha) (fst hb) =? 0 then rec (v_refine_bound lo) slo (v_refine_bound hi) shi
+      else vr_map VRat (r_of_opt (v_pick fuel (fst ha) (snd ha) (fst hb) (snd hb)))))
+  end.
+Lemma between_rec_S k fuel a sa b sb :
+  v_between_rec (S k) fuel a sa b sb =
+  vr_bind (v_cmp_sep fuel a b) (fun r =>
+    let '(c, a1, b1) := r in
+    if c =? 0 then (if sa || sb then RUndef else ROk a)
+    else let '(lo, slo, hi, shi) := if 0 <? c then (b1, sb, a1, sa) else (a1, sa, b1, sb) in
+         between_core (v_between_rec k fuel) fuel lo slo hi shi).
+Proof. reflexivity. Qed.
+
+Definition rec_ok (rec : value -> bool -> value -> bool -> vres value) : Prop :=
+  forall lo slo hi shi v, vok L lo -> vok L hi -> ecmp L (den L lo) (den L hi) = Lt ->
+    rec lo slo hi shi = ROk v -> vok L v /\ within (den L lo) slo (den L v) (den L hi) shi.
+
+Lemma within_fin (xl : R) (slo : bool) (r : Q) (xh : R) (shi : bool) :
+  (if slo then Llt L xl (LQ L r) else Lle L xl (LQ L r)) ->
+  (if shi then Llt L (LQ L r) xh else Lle L (LQ L r) xh) ->
+  within (EFin xl) slo (EFin (LQ L r)) (EFin xh) shi.
+Proof. intros H1 H2. split; [destruct slo|destruct shi]; assumption. Qed.
+
+Lemma between_core_spec rec fuel lo slo hi shi v : rec_ok rec ->
+  vok L lo -> vok L hi -> ecmp L (den L lo) (den L hi) = Lt -> sepd lo hi ->
+  between_core rec fuel lo slo hi shi = ROk v ->
+  vok L v /\ within (den L lo) slo (den L v) (den L hi) shi.
+Proof.
+  intros REC Hlo Hhi LT S H.
+  (* the generic (finite, finite) case *)
+  assert (FF : forall xl xh, den L lo = EFin xl -> den L hi = EFin xh ->
+     vr_bind (v_hull_upper lo slo) (fun ha => vr_bind (v_hull_lower hi shi) (fun hb =>
+       if q_cmp (fst ha) (fst hb) =? 0 then rec (v_refine_bound lo) slo (v_refine_bound hi) shi
+       else vr_map VRat (r_of_opt (v_pick fuel (fst ha) (snd ha) (fst hb) (snd hb))))) = ROk v ->
+     vok L v /\ within (den L lo) slo (den L v) (den L hi) shi).
+  { intros xl xh El Eh H0.
+    destruct (v_hull_upper lo slo) as [[qa sa']| |] eqn:HU; cbn [vr_bind] in H0; try discriminate.
+    destruct (v_hull_lower hi shi) as [[qb sb']| |] eqn:HL; cbn [vr_bind fst snd] in H0; try discriminate.
+    destruct (v_hull_upper_spec _ _ _ _ Hlo HU) as (Wa & _). destruct (v_hull_lower_spec _ _ _ _ Hhi HL) as (Wb & _).
+    assert (LT' : Llt L xl xh) by (rewrite El, Eh in LT; exact LT).
+    pose proof (hull_order _ _ _ _ _ _ _ _ _ _ Hlo Hhi El Eh LT' S HU HL) as ORD.
+    destruct (q_cmp qa qb =? 0) eqn:EQ.
+    - destruct (v_refine_bound_spec lo Hlo) as [Hlo' Dlo]. destruct (v_refine_bound_spec hi Hhi) as [Hhi' Dhi].
+      assert (LT2 : ecmp L (den L (v_refine_bound lo)) (den L (v_refine_bound hi)) = Lt).
+      { rewrite (ecmp_eq_l _ _ _ Dlo), (ecmp_eq_r _ _ _ Dhi). exact LT. }
+      destruct (REC _ _ _ _ _ Hlo' Hhi' LT2 H0) as [Hv W]. split; [exact Hv|].
+      eapply within_eeq; eassumption.
+    - apply Z.eqb_neq in EQ. assert (LTq : (QofR qa < QofR qb)%Q).
+      { apply Qle_lt_or_eq in ORD. destruct ORD as [O|O]; [exact O|]. exfalso. apply EQ. apply (q_cmp_eq0 _ _ Wa Wb). exact O. }
+      destruct (v_pick fuel qa sa' qb sb') as [r|] eqn:EP; cbn in H0; try discriminate. injection H0 as <-.
+      destruct (v_pick_sound _ _ _ _ _ _ Wa Wb LTq EP) as (Wr & B1 & B2).
+      split; [exact Wr|]. rewrite El, Eh. cbn [den]. apply within_fin.
+      + exact (lower_ok lo slo qa sa' xl (QofR r) Hlo El HU B1).
+      + exact (upper_ok hi shi qb sb' xh (QofR r) Hhi Eh HL B2). }
+  assert (MINF : forall xh, lo = VMinf -> den L hi = EFin xh ->
+     vr_bind (v_hull_lower hi shi) (fun h => ROk (VInt (int_dec None (q_floor (fst h))))) = ROk v ->
+     vok L v /\ within (den L lo) slo (den L v) (den L hi) shi).
+  { intros xh -> Eh H0.
+    destruct (v_hull_lower hi shi) as [[qb sb']| |] eqn:HL; cbn [vr_bind fst] in H0; try discriminate. injection H0 as <-.
+    split; [exact I|]. destruct (v_hull_lower_spec _ _ _ _ Hhi HL) as (Wb & _).
+    destruct (q_floor_spec _ Wb) as [F1 F2]. unfold int_dec. cbn [ring_norm]. rewrite Eh. cbn [den].
+    assert (B : bnd_hi sb' (inject_Z (q_floor qb - 1)) (QofR qb)).
+    { assert (inject_Z (q_floor qb - 1) < inject_Z (q_floor qb))%Q by (rewrite <- Zlt_Qlt; lia).
+      destruct sb'; cbn; lra. }
+    pose proof (upper_ok _ _ _ _ _ _ Hhi Eh HL B) as U.
+    split; [destruct slo; cbn; [reflexivity|discriminate]|destruct shi; exact U]. }
+  assert (PINF : forall xl, hi = VPinf -> den L lo = EFin xl ->
+     vr_bind (v_hull_upper lo slo) (fun h => ROk (VInt (int_inc None (q_ceiling (fst h))))) = ROk v ->
+     vok L v /\ within (den L lo) slo (den L v) (den L hi) shi).
+  { intros xl -> El H0.
+    destruct (v_hull_upper lo slo) as [[qa sa']| |] eqn:HU; cbn [vr_bind fst] in H0; try discriminate. injection H0 as <-.
+    split; [exact I|]. destruct (v_hull_upper_spec _ _ _ _ Hlo HU) as (Wa & _).
+    destruct (q_ceiling_spec _ Wa) as [F1 F2]. unfold int_inc. cbn [ring_norm]. rewrite El. cbn [den].
+    assert (B : bnd_lo sa' (QofR qa) (inject_Z (q_ceiling qa + 1))).
+    { assert (inject_Z (q_ceiling qa) < inject_Z (q_ceiling qa + 1))%Q by (rewrite <- Zlt_Qlt; lia).
+      destruct sa'; cbn; lra. }
+    pose proof (lower_ok _ _ _ _ _ _ Hlo El HU B) as U.
+    split; [destruct slo; exact U|destruct shi; cbn; [reflexivity|discriminate]]. }
+  destruct lo as [zl|dl|ql|xl| |], hi as [zh|dh|qh|xh| |]; cbn [between_core] in H; cbn [den ecmp] in LT; try discriminate LT;
+    try (eapply FF; [reflexivity|reflexivity|exact H]);
+    try (eapply MINF; [reflexivity|reflexivity|exact H]);
+    try (eapply PINF; [reflexivity|reflexivity|exact H]).
+  (* -inf, +inf *)
+  injection H as <-. split; [exact I|]. split; [destruct slo; cbn; [reflexivity|discriminate]|destruct shi; cbn; [reflexivity|discriminate]].
+Qed.
+
+Lemma between_rec_ok fuel k : rec_ok (v_between_rec k fuel).
+Proof.
+  induction k as [|k IH]; intros lo slo hi shi v Hlo Hhi LT H; [discriminate H|].
+  rewrite between_rec_S in H.
+  destruct (v_cmp_sep fuel lo hi) as [[[c a1] b1]| |] eqn:ES; cbn [vr_bind] in H; try discriminate.
+  destruct (v_cmp_sep_spec _ _ _ _ _ _ Hlo Hhi ES) as (SC & Ha1 & Hb1 & Da & Db & SEP).
+  rewrite LT in SC. cbn in SC.
+  assert (Cneg : c < 0) by (destruct c; cbn in SC; lia).
+  replace (c =? 0) with false in H by (symmetry; apply Z.eqb_neq; lia).
+  replace (0 <? c) with false in H by (symmetry; apply Z.ltb_ge; lia).
+  assert (LT1 : ecmp L (den L a1) (den L b1) = Lt).
+  { rewrite (ecmp_eq_l _ _ _ Da), (ecmp_eq_r _ _ _ Db). exact LT. }
+  destruct (between_core_spec _ _ _ _ _ _ _ IH Ha1 Hb1 LT1 (SEP ltac:(lia)) H) as [Hv W].
+  split; [exact Hv|]. eapply within_eeq; eassumption.
+Qed.
+
+(* the theorem: the picked value lies between the bounds, respecting the strictness of each; equal bounds
+   are only supported when both are non-strict *)
+Lemma v_between_spec fuel a sa b sb v : vok L a -> vok L b -> v_between fuel a sa b sb = ROk v ->
+  vok L v /\
+  match ecmp L (den L a) (den L b) with
+  | Gt => within (den L b) sb (den L v) (den L a) sa
+  | _ => within (den L a) sa (den L v) (den L b) sb
+  end.
+Proof.
+  intros Ha Hb H. unfold v_between in H. destruct fuel as [|k]; [discriminate H|].
+  rewrite between_rec_S in H.
+  destruct (v_cmp_sep (S k) a b) as [[[c a1] b1]| |] eqn:ES; cbn [vr_bind] in H; try discriminate.
+  destruct (v_cmp_sep_spec _ _ _ _ _ _ Ha Hb ES) as (SC & Ha1 & Hb1 & Da & Db & SEP).
+  destruct (c =? 0) eqn:E0.
+  - apply Z.eqb_eq in E0. subst c. cbn in SC. symmetry in SC. apply cmp_to_Z_eq0 in SC.
+    destruct (sa || sb) eqn:ST; try discriminate. injection H as <-. apply orb_false_iff in ST. destruct ST as [-> ->].
+    split; [exact Ha|]. rewrite SC. split; cbn.
+    + rewrite ecmp_refl. discriminate.
+    + rewrite SC. discriminate.
+  - apply Z.eqb_neq in E0. destruct (0 <? c) eqn:EP.
+    + apply Z.ltb_lt in EP. assert (GT : ecmp L (den L a) (den L b) = Gt).
+      { destruct (ecmp L (den L a) (den L b)); cbn in SC; try reflexivity; destruct c; cbn in SC; lia. }
+      rewrite GT. assert (LT1 : ecmp L (den L b1) (den L a1) = Lt).
+      { rewrite (ecmp_eq_l _ _ _ Db), (ecmp_eq_r _ _ _ Da), (ecmp_opp (den L a) (den L b)), GT. reflexivity. }
+      assert (S' : sepd b1 a1).
+      { specialize (SEP E0). clear - SEP. destruct a1 as [?|?|?|[?|? ? ?]| |], b1 as [?|?|?|[?|? ? ?]| |]; cbn in *; try exact I; try exact SEP.
+        rewrite orb_comm. exact SEP. }
+      destruct (between_core_spec _ _ _ _ _ _ _ (between_rec_ok (S k) k) Hb1 Ha1 LT1 S' H) as [Hv W].
+      split; [exact Hv|]. eapply within_eeq; eassumption.
+    + apply Z.ltb_ge in EP. assert (LT : ecmp L (den L a) (den L b) = Lt).
+      { destruct (ecmp L (den L a) (den L b)); cbn in SC; try reflexivity; destruct c; cbn in SC; lia. }
+      rewrite LT. assert (LT1 : ecmp L (den L a1) (den L b1) = Lt).
+      { rewrite (ecmp_eq_l _ _ _ Da), (ecmp_eq_r _ _ _ Db). exact LT. }
+      destruct (between_core_spec _ _ _ _ _ _ _ (between_rec_ok (S k) k) Ha1 Hb1 LT1 (SEP E0) H) as [Hv W].
+      split; [exact Hv|]. eapply within_eeq; eassumption.
+Qed.
+Lemma v_between_undef_equal fuel a sa b sb : vok L a -> vok L b -> eeq L (den L a) (den L b) ->
+  v_between fuel a sa b sb = RUndef -> sa || sb = true.
+Proof.
+  intros Ha Hb E H. unfold v_between in H. destruct fuel as [|k]; [discriminate H|].
+  rewrite between_rec_S in H.
+  destruct (v_cmp_sep (S k) a b) as [[[c a1] b1]| |] eqn:ES; cbn [vr_bind] in H.
+  - destruct (v_cmp_sep_spec _ _ _ _ _ _ Ha Hb ES) as (SC & _). unfold eeq in E. rewrite E in SC. cbn in SC.
+    destruct c; cbn in SC; try discriminate SC. cbn in H. destruct (sa || sb); [reflexivity|discriminate].
+  - exfalso. unfold v_cmp_sep in ES. destruct (v_cmp (S k) a b) as [c| |] eqn:EC; cbn in ES.
+    + destruct (c =? 0); [discriminate|].
+      destruct a as [?|?|?|xa| |], b as [?|?|?|xb| |]; cbn in ES; try discriminate;
+        repeat match type of ES with context [r_of_opt ?o] => destruct o; cbn in ES; try discriminate end.
+    + exact (v_cmp_defined _ _ _ EC).
+    + discriminate.
+  - discriminate.
 Qed.
 End Line.
